@@ -13,7 +13,7 @@ import vlib, txnlab
 from vlib import Verdict
 
 PID = "C06"
-PROPS = [("theories/Locks/Props.v", "Locks.Props")]
+PROPS = [("theories/Locks/Props.v", "Locks.Props"), ("theories/Locks/PropsKill.v", "Locks.PropsKill")]
 AREAS = ["theories/Locks"]
 BACKEND = os.environ.get("C06_BACKEND", "mock")
 KEYS = ["k1", "k2", "k3", "k4", "k5"]
@@ -170,6 +170,18 @@ def gen_schedule_program(rng, idx):
     return sc
 
 
+def add_kill(rng, prog, p=0.15):
+    """the session's kill flag is set at a random point of t1's program (in 15 % of the programs) and cleared again later or not:
+    LockKeys / reads / prewrite may be interrupted, every release request must still go out"""
+    if rng.random() >= p:
+        return
+    first = next(i for i, st in enumerate(prog) if st["t"] == "t1" and st["op"] == "begin") + 1
+    at = rng.randrange(first, len(prog) + 1)
+    prog.insert(at, {"t": "t1", "op": "kill", "v": "1"})
+    if at + 1 <= len(prog) and rng.random() < 0.4:
+        prog.insert(rng.randrange(at + 1, len(prog) + 1), {"t": "t1", "op": "kill", "v": "0"})
+
+
 def gen_program(rng, idx):
     pess1 = rng.random() < 0.8
     mode1 = rng.choice(["2pc", "2pc", "async", "1pc"])
@@ -235,6 +247,7 @@ def gen_program(rng, idx):
         prog.append({"t": "t1", "op": rng.choice(["agg_done", "agg_cancel"])})
     if pess1 and rng.random() < 0.3:
         prog.append({"t": "t1", "op": "audit"})
+    add_kill(rng, prog)
     prog.append({"t": "t1", "op": rng.choice(["commit", "commit", "rollback"])})
     if not t2_done:
         prog.append({"t": "t2", "op": rng.choice(["commit", "rollback"])})
@@ -384,6 +397,21 @@ def directed():
     out.append(sc(92, B + [A("agg_start"), L(["k1"]), I("k1"), A("agg_done"), I("k1"), A("rollback"), R2]))   # entry without values reads "not exists"; after Done the flag says exists
     out.append(sc(93, B + [A("agg_start"), L(["k1"], rv=True), L(["k4"], rv=True), I("k4"), I("k1"), A("agg_done"), I("k4"), A("commit"), R2]))
     out.append(sc(94, B + [A("agg_start"), L(["k2"], ce=True), A("agg_retry"), I("k2"), L(["k2"]), A("agg_done"), I("k2"), A("rollback"), R2]))  # previous-attempt entry consulted
+    # the session's kill flag (KILL QUERY / max execution time): interruptible requests (PessimisticLock, Prewrite, reads) fail in
+    # the sender without being sent; release requests (PessimisticRollback, BatchRollback, Commit) must still go out
+    K = lambda v: {"t": "t1", "op": "kill", "v": v}
+    out.append(sc(100, B + [L(["k1", "k2", "k4"]), K("1"), A("rollback"), R2], splits=("k2",)))                 # Rollback of a killed session
+    out.append(sc(101, B + [{"t": "t2", "op": "lock", "ks": ["k3"], "wait": -1}, {"t": "t1", "op": "failpoint", "k": FP, "v": "pause"}, L(["k1", "k2", "k3"]),
+                            K("1"), {"t": "t1", "op": "failpoint", "k": FP, "v": ""}, A("audit"), A("rollback"), R2], splits=("k2", "k3")))  # the background rollback of a failed call runs killed
+    out.append(sc(102, B + [L(["k5"]), K("1"), L(["k1", "k2"]), K("0"), L(["k1"]), A("audit"), A("commit"), R2], splits=("k2",)))  # interrupted LockKeys = a failed call; cleared; goes on
+    out.append(sc(103, B + [L(["k1", "k3"]), {"t": "t1", "op": "set", "k": "k1", "v": "x"}, {"t": "t1", "op": "set", "k": "k3", "v": "y"}, K("1"), A("commit"), R2], splits=("k2",)))  # killed Commit: prewrite interrupted, clean-up must go out
+    out.append(sc(104, B + [A("agg_start"), L(["k1"]), L(["k2"]), A("agg_retry"), L(["k1"]), K("1"), A("agg_done"), A("audit"), K("0"), A("commit"), R2], splits=("k2",)))  # Done's redundant-lock release runs killed
+    out.append(sc(105, B + [A("agg_start"), L(["k1"]), L(["k2"]), K("1"), A("agg_cancel"), A("audit"), A("rollback"), R2]))
+    # a release request of a killed session meets a region error: the retry must still happen (finding: Backoffer.Backoff
+    # checked the kill flag whatever the request type and abandoned the retry)
+    out.append(sc(106, B + [L(["k1", "k2"]), {"t": "t1", "op": "split", "k": "k2"}, K("1"), A("rollback"), R2]))
+    out.append(sc(107, B + [L(["k1"]), {"t": "t1", "op": "set", "k": "k1", "v": "x"}, {"t": "t1", "op": "set", "k": "k3", "v": "y"}, {"t": "t1", "op": "split", "k": "k2"}, K("1"), A("commit"), R2]))
+    out.append(sc(108, B + [A("agg_start"), L(["k1"]), L(["k3"]), A("agg_retry"), L(["k3"]), {"t": "t1", "op": "split", "k": "k2"}, K("1"), A("agg_done"), A("audit"), A("rollback"), R2]))
     out.append(sc(95, B + [I("k1"), L(["k1"]), I("k1"), {"t": "t1", "op": "set", "k": "k2", "v": "w"}, L(["k2"]), I("k2"), L(["k2"]), I("k2"), A("rollback"), R2]))  # failed insert reverted: flags survive only over an older buffered value
     return out
 
@@ -473,6 +501,7 @@ def gen_agg_program(rng, idx):
         prog.append(lock_step(rng.sample(KEYS, rng.choice([1, 2]))))
     if rng.random() < 0.3:
         prog.append({"t": "t1", "op": rng.choice(["set", "del"]), "k": rng.choice(KEYS), "v": "n"})
+    add_kill(rng, prog)
     prog.append({"t": "t1", "op": rng.choice(["commit", "commit", "rollback"])})
     if not t2_done:
         prog.append({"t": "t2", "op": rng.choice(["commit", "rollback"])})
